@@ -75,7 +75,8 @@ Proof.
 Qed.
 
 (* ---------- non-write steps ---------- *)
-Definition nowrite (o : op) : bool := match o with OWrite _ => false | _ => true end.
+(* ops of a fault-free suffix: no application write, no fragment garbage collection *)
+Definition nowrite (o : op) : bool := match o with OWrite _ | OFragGC => false | _ => true end.
 
 Lemma have_recv_sub s m sn f :
   Inv s -> sub_ok (sw s) (sr s) m -> have (sr s) sn f = true -> have (sr (recv_sub s m)) sn f = true.
@@ -129,9 +130,9 @@ Proof.
 Qed.
 
 Lemma have_step depth s o sn f :
-  0 <= depth -> Inv s -> have (sr s) sn f = true -> have (sr (step depth s o)) sn f = true.
+  0 <= depth -> Inv s -> nowrite o = true -> have (sr s) sn f = true -> have (sr (step depth s o)) sn f = true.
 Proof.
-  intros D I H. destruct o; cbn [step lift_w sr]; try exact H.
+  intros D I No H. destruct o; try discriminate No; cbn [step lift_w sr]; try exact H.
   - destruct (nth_error (net s) i) as [d|] eqn:E; [|exact H].
     apply have_recv; [apply Inv_drop; exact I | | exact H].
     intros m Hm. cbn [sw sr]. eapply (i_net s I); [eapply nth_error_In; exact E | exact Hm].
